@@ -271,9 +271,11 @@ impl Property for StatQ {
         }
     }
     fn runs(&self, tier: Tier) -> u64 {
-        match tier {
-            Tier::Quick => 60_000,
-            Tier::Thorough => 3_000_000,
+        match (tier, self.0) {
+            (Tier::Quick, Mode::C01) | (Tier::Quick, Mode::C07) => 1_000_000,
+            (Tier::Quick, _) => 600_000,
+            (Tier::Thorough, Mode::C01) | (Tier::Thorough, Mode::C07) => 20_000_000,
+            (Tier::Thorough, _) => 15_000_000,
         }
     }
     fn gen(&self, run_seed: u64, _tier: Tier) -> Value {
